@@ -129,6 +129,9 @@ def raw_value(fmt, typ, rng, shape='random', forbid='', max_decimals=9):
         chars = ''.join(ch for ch in _chars(letter) if ch not in forbid)
         length = n if not var else {'min': 1, 'max': n}.get(shape, rng.randrange(1, n + 1))
         s = ''.join(rng.choice(chars) for _ in range(length))
+        if letter == 'N' and length > 1 and rng.random() < 0.3:
+            s = '0' * rng.choice((1, 1, 2, 3)) + s[rng.choice((1, 1, 2, 3)):]
+            s = s[:length].ljust(length, '7')
         out += s
     if typ == 'int':
         return out
